@@ -1,5 +1,7 @@
 """C04 every supported configuration yields a finite EKO; others fail cleanly."""
 
+import math
+
 import numpy as np
 
 from vf import runner_util as ru
@@ -13,7 +15,7 @@ RULE = (
     "Each case is one configuration drawn from the product QCD order 1-4 x QED order 0-2 (em_running on/off) x 8 solution "
     "methods x scale variation {none, exponentiated xif!=1, expanded xif!=1} x inversion {exact, expanded} x {unpolarised, "
     "polarised, time-like, polarised+time-like} x path {single segment, up across one threshold, down across one "
-    "threshold} x initial nf 3-6, on a 2-3 point grid with couplings in the perturbative range. Outcome must be either an "
+    "threshold; in a sixth of the cases with the target exactly on the crossed matching scale or exactly at the initial scale} x initial nf 3-6, on a 2-3 point grid with couplings in the perturbative range. Outcome must be either an "
     "archive whose operator and error entries are all finite, or NotImplementedError / ValueError with a non-empty "
     "message; any other exception or a non-finite entry is a violation. Configurations whose ingredients the docs declare "
     "unavailable (TimeLike.rst: time-like AD only up to NNLO; pQCD.rst/Matching.rst: polarised AD and matching only up to "
@@ -64,6 +66,17 @@ def strategy(tier):
         walls = ru.walls_of(base)
         if draw(st.booleans()):
             mu = ru.scale_in_patch(draw, st, nff, walls, lo=1.0, hi=300.0)
+        # boundary values of the path shapes: a target exactly on the crossed matching scale (zero-length last segment)
+        # or exactly at the initial scale
+        edge = draw(st.integers(0, 5))
+        if edge == 0 and path != "single":
+            w = walls[min(nf0, nff) - 3]
+            mu = math.sqrt((base["ratios"][min(nf0, nff) - 3] ** 2) * (base["masses"][min(nf0, nff) - 3] ** 2))
+            for cand in (mu, float(np.nextafter(mu, 0.0)), float(np.nextafter(mu, 1e9))):
+                if cand * cand == (base["ratios"][min(nf0, nff) - 3] ** 2) * (base["masses"][min(nf0, nff) - 3] ** 2):
+                    mu = cand
+        elif edge == 1 and path == "single":
+            mu = base["init"][0]
         base["mugrid"] = [[float(mu), int(nff)]]
         # make sure the coupling is perturbative also on the (possibly new) wall of the path
         if svm is not None:
@@ -80,7 +93,7 @@ def strategy(tier):
                 scales.append(walls[nfw - 3])
         lowest = min(scales) * (min(base["xif"], 1.0) if svm is not None else 1.0)
         base["alphas"] = float(ru.lo_alpha(draw(st.floats(0.1, 0.3)), lowest, base["ref"][0]))
-        return {"path": path, "card": base}
+        return {"path": path, "card": base, "edge": bool((edge == 0 and path != "single") or (edge == 1 and path == "single"))}
 
     return build()
 
@@ -170,7 +183,7 @@ def check_case(case):
     cfg = [qcd, qe, c["em_running"], c["method"], c["sv"], c["inv"], c["pol"], c["tl"], case["path"], c["init"][1]]
     res.key = cfg
     res.classes = [f"order={qcd},{qe}", f"method={c['method']}", f"sv={c['sv']}", f"flags=pol{int(c['pol'])}tl{int(c['tl'])}",
-                   f"path={case['path']}", f"nf0={c['init'][1]}"]
+                   f"path={case['path']}", f"nf0={c['init'][1]}", f"target-on-edge={case.get('edge', False)}"]
     res.nontrivial = not (not c["pol"] and not c["tl"] and qe == 0 and c["method"] == "iterate-exact" and c["sv"] is None)
     why = unavailable(c)
     cfgs = f"order={c['order']} method={c['method']} sv={c['sv']} xif={c['xif']} inv={c['inv']} pol={c['pol']} tl={c['tl']} path={case['path']} nf0={c['init'][1]}"
@@ -198,7 +211,17 @@ def check_case(case):
     zero = silently_zero(c)
     if zero:
         res.fail(f"{ID}/silently-zero/{zero}", f"{cfgs}: accepted, but the top-order ingredient '{zero}' is identically zero")
-    if why is not None:
+    n = len(c["xgrid"])
+    ident = np.zeros((14, n, 14, n))
+    for p in range(14):
+        for j in range(n):
+            ident[p, j, p, j] = 1.0
+    if qe == 0:
+        ident[0] = 0.0
+    trivial = all(np.allclose(op, ident, rtol=0, atol=1e-14) for op, _ in ops.values())  # nothing had to be computed (zero-length path)
+    if trivial:
+        res.classes.append("outcome=identity-shortcut")
+    if why is not None and not trivial:
         res.fail(
             f"{ID}/silently-computed/{why}",
             f"{cfgs}: documented as unavailable ({why}) but an archive was produced instead of a NotImplementedError/ValueError",
